@@ -154,7 +154,15 @@ namespace
     }
     value plus_hashmap(runtime& runtime, value::cref right)
     {
-        std::unordered_map<sqf::runtime::value, sqf::runtime::value> hashmap = right.data<d_hashmap>()->map();
+        // A copy shares nothing that can change with the original: arrays (and maps) it holds are copied as well,
+        // as +array does for the arrays it holds.
+        std::unordered_map<sqf::runtime::value, sqf::runtime::value> hashmap;
+        for (auto& it : right.data<d_hashmap>()->map())
+        {
+            if (it.second.is<t_array>()) { hashmap[it.first] = value(it.second.data<d_array>()->copy_deep()); }
+            else if (it.second.is<t_hashmap>()) { hashmap[it.first] = plus_hashmap(runtime, it.second); }
+            else { hashmap[it.first] = it.second; }
+        }
         return std::make_shared<d_hashmap>(hashmap);
     }
 }
